@@ -394,14 +394,16 @@ package client
 //@   modifies *
 
 // The responder: one answer per request (the done channel has capacity one and is read at most once).
+// respOK: a responder as handleUpdateReq builds it.
+//@ pred respOK(r *UpdateResponder) = r != nil && chanOK(r.channel) && reqDecoded(r.req) && r.pidx < 2 && mach(r.channel).idx != r.pidx
 //@ func (*UpdateResponder).Accept
-//@   requires r != nil && sent(r.done) == 0 && r.channel != nil
-//@   modifies *
-//@   ensures sent(r.done) == 1 && held(&r.channel.machMtx) == old(held(&r.channel.machMtx)) && r.done == old(r.done) && r.channel == old(r.channel)
+//@   requires respOK(r) && sent(r.done) == 0
+//@   modifies mach(r.channel).*, mach(r.channel).prevTXs[*], r.channel.parent.subChannelWithdrawals.entries[*], ghost("sends")
+//@   ensures sent(r.done) == 1
 //@ func (*UpdateResponder).Reject
-//@   requires r != nil && sent(r.done) == 0 && r.channel != nil
-//@   modifies *
-//@   ensures sent(r.done) == 1 && held(&r.channel.machMtx) == old(held(&r.channel.machMtx)) && r.done == old(r.done) && r.channel == old(r.channel)
+//@   requires respOK(r) && sent(r.done) == 0
+//@   modifies ghost("sends")
+//@   ensures sent(r.done) == 1
 
 //@ interface ChannelUpdateProposal
 //@   method Base
@@ -413,14 +415,13 @@ package client
 // does only for a valid successor of the current state - and machine.AddSig verified the sender's signature over that staged state.
 //@ func (*Channel).acceptUpdate
 //@   requires chanOK(c) && ctx != nil && reqDecoded(req) && pidx < 2 && mach(c).idx != pidx
-//@   modifies *
+//@   modifies mach(c).*, mach(c).prevTXs[*], c.parent.subChannelWithdrawals.entries[*]
 //@   callsite (*machine).Sig : m == old(mach(c)) && m.stagingTX.State == old(reqState(req)) && m.phase == channel.Signing &&
 //@     old(mach(c).phase == channel.Acting && validSuccSM(c.machine.StateMachine, reqState(req), reqActor(req))) &&
 //@     m.stagingTX.Sigs[pidx] == old(reqSig(req)) && peerSigOK(m, pidx, m.stagingTX.State, m.stagingTX.Sigs[pidx])
 
 //@ func (*Channel).rejectUpdate
 //@   requires chanOK(c) && ctx != nil && reqDecoded(req)
-//@   modifies *
 
 // Sending on the channel connection: network effect only (fork-join over the peers through errgroup: out of the verified subset);
 // the connection object is well-formed by construction (newChannelConn).
@@ -438,6 +439,37 @@ package client
 //@ func (*Channel).registerSubChannelSettlement
 //@   trusted
 //@   requires c != nil && c.subChannelWithdrawals != nil
+//@   modifies c.subChannelWithdrawals.entries[*]
 //@ func (*Channel).registerSubChannelFunding
 //@   trusted
 //@   requires c != nil && c.subChannelFundings != nil
+//@   modifies c.subChannelFundings.entries[*]
+
+// Virtual channel funding/settlement requests are accepted automatically (acceptProposal / hand-over to the settlement watcher)
+// only after their validation succeeded; every path answers the request at most once.
+//@ func (*Client).rejectProposal
+//@   requires c != nil && c.log != nil && respOK(responder) && sent(responder.done) == 0
+//@   modifies ghost("sends")
+//@   ensures sent(responder.done) == 1
+//@ func (*Client).acceptProposal
+//@   requires c != nil && c.log != nil && respOK(responder) && sent(responder.done) == 0
+//@   modifies mach(responder.channel).*, mach(responder.channel).prevTXs[*], responder.channel.parent.subChannelWithdrawals.entries[*], ghost("sends")
+//@   ensures sent(responder.done) == 1
+
+// The watchers pair the funding/settlement proposals of the two parent channels (goroutines, channels: trusted frame).
+// A settlement proposal handed to the settlement watcher may be accepted by it (matchSettlementProposal calls Accept).
+//@ func (*stateWatcher).Await
+//@   trusted
+//@   requires w != nil && state != nil
+
+//@ func (*Client).handleVirtualChannelFundingProposal
+//@   requires c != nil && c.log != nil && c.fundingWatcher != nil && fundPropDecoded(prop) && respOK(responder) && responder.channel == ch && sent(responder.done) == 0
+//@   modifies mach(ch).*, mach(ch).prevTXs[*], ch.parent.subChannelWithdrawals.entries[*], ghost("sends")
+//@   callsite (*Client).acceptProposal : old(fundingOK(ch, prop))
+//@   ensures sent(responder.done) == 1
+
+//@ func (*Client).handleVirtualChannelSettlementProposal
+//@   requires c != nil && c.log != nil && c.settlementWatcher != nil && settlePropDecoded(prop) && respOK(responder) && responder.channel == parent && sent(responder.done) == 0
+//@   modifies mach(parent).*, mach(parent).prevTXs[*], parent.parent.subChannelWithdrawals.entries[*], ghost("sends")
+//@   callsite (*stateWatcher).Await : old(settleOK(parent, prop))
+//@   ensures sent(responder.done) <= 1
